@@ -1147,6 +1147,15 @@ func gridLayout(context *layoutContext, box_ Box, bottomSpace pr.Float, skipStac
 							span := getSpan(columnStart)
 							x, width = getPlacement(columnStart, pr.GridLine{Val: x + 1 + span}, extractNames(columns)).unpack()
 						}
+						if x+width > implicitX2 {
+							if x > implicitX1 {
+								// The item overflows the columns of the
+								// implicit grid: no room on this row.
+								break
+							}
+							// The item is wider than the implicit grid.
+							implicitX2 = x + width
+						}
 						intersect := intersectWithChildren(x, y, width, height, childrenPositions)
 						if intersect {
 							// Child intersects with a positioned child.
@@ -1260,6 +1269,15 @@ func gridLayout(context *layoutContext, box_ Box, bottomSpace pr.Float, skipStac
 							span := getSpan(columnStart)
 							x, width = getPlacement(columnStart, pr.GridLine{Val: x + 1 + span},
 								extractNames(columns)).unpack()
+						}
+						if x+width > implicitX2 {
+							if x > implicitX1 {
+								// The item overflows the columns of the
+								// implicit grid: no room on this row.
+								break
+							}
+							// The item is wider than the implicit grid.
+							implicitX2 = x + width
 						}
 						intersect := intersectWithChildren(x, y, width, height, childrenPositions)
 						if intersect {
